@@ -24,6 +24,7 @@ type RuleSpec struct {
 	Const            *bool
 	In, NotIn        []string
 	MinItems, MaxItems *uint64
+	MinPairs, MaxPairs *uint64
 	Unique           *bool
 	// item rules of arrays
 	Item *RuleSpec
@@ -75,6 +76,9 @@ func (rs *RuleSpec) program() *Program {
 	}
 	if rs.Family == "map" {
 		t = MapOf(T(TString))
+	}
+	if rs.Family == "array-ext" {
+		t = ArrayOf(T(TString))
 	}
 	fd := &Field{Name: "val", T: t, Required: rs.Required, Attrs: attrs, Rule: rs}
 	f.Add(obj("Holder", fd))
@@ -233,6 +237,26 @@ func RuleSpecs() []*RuleSpec {
 		add(rs)
 	}
 	add(&RuleSpec{ID: "enum:in-unspecified", Family: "enum", Kind: TEnum, ExplicitUnspecified: true, In: []string{"UNSPECIFIED", "ALPHA"}, Attrs: []string{`rules.in = ["UNSPECIFIED", "ALPHA"]`}})
+	// maps: pair counts
+	for _, mn := range optU(0, 1, 2) {
+		for _, mx := range optU(2) {
+			if mn == nil && mx == nil {
+				continue
+			}
+			rs := &RuleSpec{Family: "map", Kind: TString, MinPairs: mn, MaxPairs: mx}
+			var id []string
+			if mn != nil {
+				rs.Attrs = append(rs.Attrs, attr("rules.minPairs", mn))
+				id = append(id, fmt.Sprintf("minpairs%d", *mn))
+			}
+			if mx != nil {
+				rs.Attrs = append(rs.Attrs, attr("rules.maxPairs", mx))
+				id = append(id, fmt.Sprintf("maxpairs%d", *mx))
+			}
+			rs.ID = "map:" + strings.Join(id, "+")
+			add(rs)
+		}
+	}
 	// arrays
 	items := []*RuleSpec{
 		{ID: "string", Family: "string", Kind: TString},
@@ -327,7 +351,8 @@ func OtherRuleSpecs() []*RuleSpec {
 	mk("float:list", "float", TFloat64, "listRules.filtering.filterable = true", "listRules.sorting.sortable = true")
 	mk("enum:list", "enum", TEnum, "listRules.filtering.filterable = true")
 	mk("oneof:list-filter", "oneof", TOneof, "listRules.filtering.filterable = true")
-	mk("array:single-form", "string", TString)
+	mk("array:single-form", "array-ext", TString, `ext.singleForm = "tag"`)
+	mk("map:single-form", "map", TString, `ext.singleForm = "entry"`)
 	return out
 }
 
